@@ -39,6 +39,7 @@ type Path struct {
 	oldGen  string
 	entry   map[string]Value // entry values of params by contract name
 	inOld   bool
+	ghostGen int
 }
 
 func NewPath() *Path {
@@ -47,7 +48,7 @@ func NewPath() *Path {
 
 func (p *Path) Clone() *Path {
 	q := &Path{vars: make(map[types.Object]Value, len(p.vars)), names: make(map[string]Value, len(p.names)),
-		heap: make(map[string]string, len(p.heap)), heapGen: p.heapGen, oldHeap: p.oldHeap, oldGen: p.oldGen, entry: p.entry, inOld: p.inOld}
+		heap: make(map[string]string, len(p.heap)), heapGen: p.heapGen, oldHeap: p.oldHeap, oldGen: p.oldGen, entry: p.entry, inOld: p.inOld, ghostGen: p.ghostGen}
 	for k, v := range p.vars {
 		q.vars[k] = v
 	}
@@ -139,6 +140,7 @@ type Exec struct {
 	qvarCounter   int
 	linking       bool
 	skipped       map[string]bool
+	inEvent       bool
 }
 
 func NewExec(w *World, c *Ctx) *Exec {
@@ -314,7 +316,7 @@ func (ex *Exec) mergePaths(ps []*Path) []*Path {
 	for _, q := range ps[1:] {
 		merged := false
 		for i, o := range out {
-			if m := ex.tryMerge(o, q); m != nil {
+			if m := ex.tryMergeLoose(o.Clone(), q.Clone()); m != nil {
 				out[i] = m
 				merged = true
 				break
@@ -1169,6 +1171,9 @@ func (ex *Exec) execRange(p *Path, st *ast.RangeStmt) []outcome {
 		ex.havocVars(it, modVars)
 		if heapW {
 			ex.havocMutableHeap(it)
+			if ex.traceEvents {
+				ex.havocGhost(it)
+			}
 		}
 		i := ex.c.Fresh("i", "Int")
 		bind(it, i)
@@ -1233,6 +1238,9 @@ func (ex *Exec) execRange(p *Path, st *ast.RangeStmt) []outcome {
 		ex.havocVars(it, modVars)
 		if heapW {
 			ex.havocMutableHeap(it)
+			if ex.traceEvents {
+				ex.havocGhost(it)
+			}
 		}
 		d := ex.c.Fresh("done", doneSort)
 		bindDone(it, d)
@@ -1313,6 +1321,9 @@ func (ex *Exec) execFor(p *Path, st *ast.ForStmt) []outcome {
 	ex.havocVars(it, modVars)
 	if heapW {
 		ex.havocMutableHeap(it)
+		if ex.traceEvents {
+			ex.havocGhost(it)
+		}
 	}
 	ex.assumeInvariants(it, invs)
 	exit := it.Clone()
